@@ -596,11 +596,14 @@ Definition gx_validate_cons_one (ty : ctype) (hc : height * any cons_state) : ou
 Fixpoint all_ok {A} (f : A -> outcome unit) (l : list A) : outcome unit :=
   match l with [] => Ok tt | x :: t => _ <- f x ;; all_ok f t end.
 
-Definition gx_validate_packet (p : gx_packet) : outcome unit :=
-  if gp_data_len p =? 0 then Err       (* Data == nil after decoding an empty field *)
-  else if negb (identifier_ok (gp_src p)) then Err
+(** PacketState.Validate + the extra emptiness test for acknowledgements and commitments.  After the JSON
+    decoding of a genesis file a present-but-empty data field is an empty, non-nil slice: [Data == nil] (absent
+    field) does not occur in the generated files, and receipts with empty data are accepted. *)
+Definition gx_validate_packet (need_data : bool) (p : gx_packet) : outcome unit :=
+  if negb (identifier_ok (gp_src p)) then Err
   else if negb (identifier_ok (gp_dst p)) then Err
-  else if gp_seq p =? 0 then Err else Ok tt.
+  else if gp_seq p =? 0 then Err
+  else if need_data && (gp_data_len p =? 0) then Err else Ok tt.
 
 Definition gx_validate_seq (p : gx_packet) : outcome unit :=
   if negb (identifier_ok (gp_src p)) then Err
@@ -625,13 +628,13 @@ Definition gx_validate_gen (relayer_check : bool) (g : gx_genesis) : outcome uni
   _ <- all_ok (fun m : bytes * list (bytes * N) =>
                  match assoc_type types (fst m) with
                  | None => Err
-                 | Some _ => all_ok (fun kv : bytes * N => if (lenN (fst kv) =? 0) || (snd kv =? 0) then Err else Ok tt) (snd m)
+                 | Some _ => all_ok (fun kv : bytes * N => if (lenN (fst kv) =? 0) || (snd kv =? 0) then Err else Ok tt) (snd m)   (* GenesisMetadata.Validate *)
                  end) (gx_metadata g) ;;
   _ <- (if relayer_check && negb (forallb relayer_ok (gx_relayers g)) then Err else Ok tt) ;;
   _ <- (if identifier_ok (gx_native g) then Ok tt else Err) ;;
-  _ <- all_ok gx_validate_packet (gx_acks g) ;;
-  _ <- all_ok gx_validate_packet (gx_receipts g) ;;
-  _ <- all_ok gx_validate_packet (gx_commitments g) ;;
+  _ <- all_ok (gx_validate_packet true) (gx_acks g) ;;
+  _ <- all_ok (gx_validate_packet false) (gx_receipts g) ;;
+  _ <- all_ok (gx_validate_packet true) (gx_commitments g) ;;
   all_ok gx_validate_seq (gx_seqs g).
 
 Definition gx_validate := gx_validate_gen true.
@@ -640,14 +643,15 @@ Definition gx_validate_old := gx_validate_gen false.
 (** client.InitGenesis + packet.InitGenesis.  An empty relayer address reaches
     RelayerStore.Set([]byte(""), ...) and the prefix store panics "key is nil". *)
 Definition gx_init (g : gx_genesis) : outcome unit :=
+  (* SetAllClientMetadata: store.Set(key, value) - an empty key panics; a decoded empty value is non-nil *)
   _ <- all_ok (fun m : bytes * list (bytes * N) =>
-                 all_ok (fun kv : bytes * N => if (lenN (fst kv) =? 0) || (snd kv =? 0) then Panic else Ok tt) (snd m)) (gx_metadata g) ;;
+                 all_ok (fun kv : bytes * N => if lenN (fst kv) =? 0 then Panic else Ok tt) (snd m)) (gx_metadata g) ;;
   _ <- all_ok (fun c : bytes * any client_state => match snd c with AnyVal _ => Ok tt | _ => Panic end) (gx_clients g) ;;
   _ <- all_ok (fun cc : bytes * list (height * any cons_state) =>
                  all_ok (fun hc : height * any cons_state => match snd hc with AnyVal _ => Ok tt | _ => Panic end) (snd cc)) (gx_consensus g) ;;
-  _ <- all_ok (fun r : gx_relayer => if rl_addr_len r =? 0 then Panic else Ok tt) (gx_relayers g) ;;
-  _ <- all_ok (fun p : gx_packet => if gp_data_len p =? 0 then Panic else Ok tt) (gx_acks g) ;;
-  all_ok (fun p : gx_packet => if gp_data_len p =? 0 then Panic else Ok tt) (gx_commitments g).
+  (* RegisterRelayers: RelayerStore.Set([]byte(address), ...) *)
+  all_ok (fun r : gx_relayer => if rl_addr_len r =? 0 then Panic else Ok tt) (gx_relayers g).
+  (* packet.InitGenesis: formatted non-empty keys, decoded (non-nil) data: no panic site is reachable *)
 
 (** The module state InitGenesis leaves behind, as far as the proposal handlers read it back: per
     listed client its client state (last entry wins), the consensus states (metadata written under
